@@ -10,4 +10,7 @@ for f in demos.split(","):
     shutil.copy(f, os.path.join(d, os.path.basename(f))); names.append(os.path.basename(f))
 json.dump({"id": sid, "breaks_property": prop, "needs_to_manifest": needs, "demonstration": names,
            "confirmed_by_coordinator": ran, "caught_by": caught}, open(os.path.join(d, "meta.json"), "w"), indent=1)
+rep = os.environ.get("REPORT")
+if rep and os.path.exists(rep):
+    shutil.copy(rep, os.path.join(d, "seed_agent_report.md"))
 print("kept", d)
